@@ -2,6 +2,7 @@ package props
 
 import (
 	"fmt"
+	"regexp"
 	"strings"
 
 	"github.com/vedadiyan/genql"
@@ -13,7 +14,7 @@ import (
 )
 
 var c03Forced = []string{"group.1col", "group.2col", "group.3col", "group.nullkey", "group.mixedkey", "having", "having.key", "where", "star", "agg.COUNT*", "agg.COUNT", "agg.SUM", "agg.MIN", "agg.MAX", "agg.AVG",
-	"agg.samefn-diffcol", "agg.samefn-samecol", "agg.nullable", "whole.where", "whole.nowhere", "whole.empty", "whole.union", "whole.limit", "table.empty", "from.alias", "reexec.vars", "agg.groupcol", "naming.alias-unqualified", "naming.table-qualified", "agg.like-named", "star.only"}
+	"agg.samefn-diffcol", "agg.samefn-samecol", "agg.nullable", "whole.where", "whole.nowhere", "whole.empty", "whole.union", "whole.limit", "table.empty", "from.alias", "reexec.vars", "agg.groupcol", "naming.alias-unqualified", "naming.table-qualified", "agg.like-named", "star.only", "naming.mixed-spelling", "column.nonword"}
 
 func init() {
 	fw.Register(&fw.Prop{
@@ -341,9 +342,27 @@ func c03Group(c *fw.Case) {
 		feats = append(feats, "where")
 	}
 	if !whole {
+		// GROUP BY may spell the grouping columns the other way than the
+		// select list does: with / without the alias, with the table's own name
+		gro := ro
+		hasStar := false
+		for _, it := range items {
+			hasStar = hasStar || it.star
+		}
+		if !hasStar && (force == "naming.mixed-spelling" || (force == "" && c.Chance(0.15))) {
+			switch {
+			case ro.Qualifier != "":
+				gro.Qualifier = ""
+			case fromText == "t1 x":
+				gro.Qualifier = "x"
+			default:
+				gro.Qualifier = "t1"
+			}
+			feats = append(feats, "naming.mixed-spelling")
+		}
 		gq := make([]string, len(gcols))
 		for i, g := range gcols {
-			gq[i] = ro.Col(g)
+			gq[i] = gro.Col(g)
 		}
 		sql += " GROUP BY " + strings.Join(gq, ", ")
 		if having != nil {
@@ -495,12 +514,26 @@ func c03Group(c *fw.Case) {
 		}
 		feats = append(feats, "whole.limit")
 	}
+	// column names that are not plain words, back-ticked wherever they are named
+	var nonword map[string]string
+	if force == "column.nonword" || (force == "" && c.Chance(0.1)) {
+		nonword = map[string]string{"g1": "g-1", "g2": "g 2", "v1": "v-1", "w1": "w é", "g4": "g.4"}
+		delete(nonword, "g4") // a dot inside a key is a path separator for GROUP BY: not asserted
+		sql = c03NonwordRe.ReplaceAllStringFunc(sql, func(m string) string { return "`" + nonword[strings.Trim(m, "`")] + "`" })
+		for i := range want {
+			want[i] = renameKeys(val.Copy(want[i]), nonword)
+		}
+		feats = append(feats, "column.nonword")
+	}
 	c.Feature(feats...)
 	c.Sample(map[string]any{"sql": sql, "rows_in": len(t.Rows), "filtered": len(filtered), "expected": want})
 	R := pick(c.Tier, 3, 8)
 	var firstRows []any
 	for rep := 0; rep < R; rep++ {
 		doc := DocOf(t)
+		if nonword != nil {
+			doc = renameKeys(val.Copy(doc), nonword).(map[string]any)
+		}
 		o := Run(doc, sql)
 		detail := map[string]any{"sql": sql, "doc": doc, "expected": want, "observed": o.Describe(), "repetition": rep}
 		if !o.OK() {
@@ -554,6 +587,8 @@ func c03Group(c *fw.Case) {
 	}
 }
 
+var c03NonwordRe = regexp.MustCompile("`?\\b(g1|g2|v1|w1)\\b`?")
+
 func containsStr(xs []string, s string) bool {
 	for _, x := range xs {
 		if x == s {
@@ -562,7 +597,6 @@ func containsStr(xs []string, s string) bool {
 	}
 	return false
 }
-
 
 // c03Reexec: one Query object executed several times while a variable its
 // WHERE reads changes in between: every execution's aggregates are computed
